@@ -24,10 +24,14 @@ PROPERTY = "C16"
 LEVEL = "fault_enumeration"  # every step index of a generated run is enumerated as the snapshot point
 RULE = ("scenario = generated ROM (prologue, main loop, interrupt handler, subroutine from decoder-verified "
         "templates: IMR/ISR/KOL/KOH/USR/LCC writes, KIL/ISR/SSR reads logged to RAM, LCD instruction/data/status "
-        "accesses, memory-card and RAM stores, HALT/OFF/WAIT, CALL/RET, stack ops) x timer periods x host "
-        "events (key press/release, ON key); for each model every step index k in 0..N is a snapshot point, "
-        "continued K steps. Non-trivial = at the snapshot point the machine is halted/off, inside a handler, "
-        "has a pending request, a key held, a non-empty key FIFO, a timer within 2 cycles of firing, LCD "
+        "accesses, memory-card, RAM and RAM-expansion stores, reads of the first/last bytes of every memory "
+        "region (ROM end 0xFFFFF!), HALT/OFF, short and long WAIT, CALL/RET, stack ops) x memory configuration "
+        "(card image, RAM expansion position/size, device map) x timer periods x host events (key "
+        "press/release, ON key; profiles incl. nested interrupts = handler re-enables IRM + ON-key double taps, "
+        "and key flood = keys held over long idle periods with nobody reading KIL); for each model every step "
+        "index k in 0..N is a snapshot point, continued K steps. Non-trivial = at the snapshot point the "
+        "machine is halted/off, inside a handler, has a handler frame left after a nested return, a pending "
+        "request, a key held, a non-empty/full key FIFO, a timer within 2 cycles of firing or overdue, LCD "
         "drawn or card written, AND the continuation contains a delivery, a power-state change or a logged "
         "read; distinct = (model, scenario, k).")
 
@@ -122,6 +126,8 @@ def instr_class(scen: Dict[str, Any], pc: int) -> str:
                         ("-read" if lo & 1 else "-write") + "]"
                 if 0x40000 <= a <= 0x4FFFF:
                     return "[card]"
+                if a >= 0xC0000:
+                    return "[rom]"
                 return "[ram]"
 
             text = re.sub(r"\[([0-9A-F]{5})\]", addr_class, text)
@@ -266,6 +272,15 @@ def point_labels(model: str, obs: Dict[str, Any], diag: Dict[str, Any], obs_init
         labs.append("pt:key-held")
     if (obs.get("kb") or {}).get("fifo"):
         labs.append("pt:fifo-nonempty")
+        # ring of 8 slots: the Rust queue holds 8 events (separate count), the Python one 7 (head == tail is empty)
+        if len(obs["kb"]["fifo"]) >= (7 if model == "py" else 8):
+            labs.append("pt:fifo-full")
+    frames = diag.get("interrupt_stack")
+    if isinstance(frames, list):
+        if len(frames) >= 2:
+            labs.append("pt:nested-irq")
+        if frames and not diag.get("in_interrupt"):
+            labs.append("pt:frame-after-inner-reti")
     if diag.get("key_irq_latched"):
         labs.append("pt:key-latched")
     try:
@@ -275,6 +290,8 @@ def point_labels(model: str, obs: Dict[str, Any], diag: Dict[str, Any], obs_init
                 if d <= 2:
                     labs.append("pt:timer-near")
                     break
+            if any(int(diag[nm]) < int(obs["cycles"]) for nm in ("next_mti", "next_sti")):
+                labs.append("pt:timer-overdue")
     except Exception:
         pass
     if (obs.get("lcd") or {}).get("vram") != (obs_init.get("lcd") or {}).get("vram") or \
@@ -336,6 +353,12 @@ def judge_model(model: str, scen: Dict[str, Any], points: List[int], cont: int, 
             continue
         ddiff = diff_diag(dg, b["diag"]) if dg else []
         names0, det0 = diff_obs(A[k], b["obs0"])
+        # bus probes (region boundaries + strided sample of the whole external space) are memory as a program
+        # would read it: an observation, not a diagnostic
+        for key in [d for d in ddiff if d.startswith("bus:")]:
+            ddiff.remove(key)
+            names0.append("mem." + key)
+            det0.append(f"bus reads {key[4:]} orig={dg.get(key)} restored={b['diag'].get(key)} (hash of bytes)")
         verdict: Optional[Violation] = None
         if names0:
             where = "unrestored: " + "+".join(sorted(set(ddiff) | set(names0)))
@@ -611,7 +634,7 @@ def _shard(task: Tuple[int, int, int, str, int, int, int]) -> Report:
 def run(ctx: Ctx) -> Report:
     rsclient.build()
     S.selftest()
-    nscen = ctx.pick(48, 192)
+    nscen = ctx.pick(75, 195)
     n = ctx.pick(40, 64)
     cont = ctx.pick(40, 40)
     nshards = 16 if ctx.quick else 64
@@ -629,8 +652,15 @@ def run(ctx: Ctx) -> Report:
         "cycle/instruction counters; interrupt delivery counters and last delivery",
         "not compared: wall-clock fields (created, start_time), memory read/write perf counters, IMR/ISR "
         "bit-watch tables, instruction history, trace state, Rust TEMP registers and mirrors (diagnostic only)",
+        "at every snapshot point and right after every load, additionally: bus reads (memory.read_byte / "
+        "MemoryImage::load) of 64 bytes on each side of every region boundary (ROM start/end, card window and "
+        "card image end, internal RAM start, RAM expansion start/end, 0x80000, 0x00000) and a stride-1021 sample "
+        "of the whole 1 MiB space, hashed per region; the LCD controller windows (reads change device state) "
+        "are skipped",
         "private attributes are read only to *name* the unrestored state in the fingerprint; a difference in "
         "private state without an observable divergence within K steps is a label, not a violation",
+        "RAM expansion: Python PCE500Emulator.expand_ram overlay; the Rust runtime has no such call, the same "
+        "range is plain RAM there (equivalent behaviour); expansions stay below 0x80000",
         "Python<->Rust behaviour after a cross-load is not compared (per-model semantics differ); only that the "
         "load succeeds and carries registers, IMEM, RAM windows, counters, timer schedule, in_interrupt, held "
         "keys/FIFO and LCD; interrupts.pending and the card window are not asserted across models",
